@@ -270,8 +270,13 @@ ASMJIT_FAVOR_SIZE Error FuncFrame::finalize() noexcept {
   _sa_offset_from_sp = has_da ? FuncFrame::kTagInvalidOffset : v;
 
   // Calculate where the function arguments start relative to FP or user-provided register.
-  _sa_offset_from_sa = has_fp ? return_address_size + register_size      // Return address + frame pointer.
-                          : return_address_size + _push_pop_save_size; // Return address + all push/pop regs.
+  //
+  // Targets that push the return address (X86/X64) set up FP right after it was pushed, which happens before any
+  // other register is pushed. Targets that have a link register (AArch64) store the [FP, LR] pair at the bottom
+  // of the push/pop area and FP points to it, which means that FP is the same as SP after all registers were pushed.
+  _sa_offset_from_sa = has_fp && !arch_traits.has_link_reg()
+    ? return_address_size + register_size      // Return address + frame pointer.
+    : return_address_size + _push_pop_save_size; // Return address + all push/pop regs.
 
   return Error::kOk;
 }
